@@ -65,11 +65,11 @@ func init() {
 		}
 		d := new(big.Int).Mul(r, r)
 		d.Sub(d, a).Mod(d, n)
-		tag := " notsq"
-		if d.Sign() == 0 {
-			tag = " sq"
+		// a returned root squares to a modulo the product of the factors (single verdict token)
+		if d.Sign() != 0 {
+			return "wrong-root " + showInt(r)
 		}
-		return "ok " + showInt(r) + tag
+		return "root " + showInt(r)
 	}
 	executors["sum4"] = func(o Op) string {
 		n := unhx(o["n"])
@@ -257,9 +257,9 @@ func genC19(g *Rng, tier string, emit func(Op)) {
 	}
 	// modsqrt with the factor 4 on small (also negative) arguments
 	for a := -40; a < 200; a++ {
-		emit(Op{"op": "modsqrt", "class": "exh4", "a": hxi(int64(a)), "factors": hxs([]*big.Int{bi(4), bi(5), bi(13)})})
-		emit(Op{"op": "modsqrt", "class": "exh4", "a": hxi(int64(a)), "factors": hxs([]*big.Int{bi(4), bi(7)})})
-		emit(Op{"op": "modsqrt", "class": "exh", "a": hxi(int64(a)), "factors": hxs([]*big.Int{bi(3), bi(11)})})
+		emit(Op{"op": "modsqrt", "label": "root|none", "class": "exh4", "a": hxi(int64(a)), "factors": hxs([]*big.Int{bi(4), bi(5), bi(13)})})
+		emit(Op{"op": "modsqrt", "label": "root|none", "class": "exh4", "a": hxi(int64(a)), "factors": hxs([]*big.Int{bi(4), bi(7)})})
+		emit(Op{"op": "modsqrt", "label": "root|none", "class": "exh", "a": hxi(int64(a)), "factors": hxs([]*big.Int{bi(3), bi(11)})})
 	}
 	// crt small exhaustive
 	for pa := 1; pa < 14; pa++ {
@@ -303,14 +303,14 @@ func genC19(g *Rng, tier string, emit func(Op)) {
 				t := g.below(nn)
 				t2 := new(big.Int).Mul(t, t)
 				t2.Mod(t2, nn)
-				emit(Op{"op": "modsqrt", "class": "rand-square", "a": hx(t2), "factors": hxs([]*big.Int{p, q})})
-				emit(Op{"op": "modsqrt", "class": "rand", "a": hx(g.below(nn)), "factors": hxs([]*big.Int{p, q})})
+				emit(Op{"op": "modsqrt", "label": "root|none", "class": "rand-square", "a": hx(t2), "factors": hxs([]*big.Int{p, q})})
+				emit(Op{"op": "modsqrt", "label": "root|none", "class": "rand", "a": hx(g.below(nn)), "factors": hxs([]*big.Int{p, q})})
 				n4 := new(big.Int).Mul(nn, bi(4))
 				t3 := g.below(n4)
 				t3.Mul(t3, t3).Mod(t3, n4)
-				emit(Op{"op": "modsqrt", "class": "rand-square4", "a": hx(t3), "factors": hxs([]*big.Int{bi(4), p, q})})
-				emit(Op{"op": "modsqrt", "class": "rand4", "a": hx(g.below(n4)), "factors": hxs([]*big.Int{bi(4), p, q})})
-				emit(Op{"op": "modsqrt", "class": "rand4-neg", "a": hx(new(big.Int).Neg(g.below(n4))), "factors": hxs([]*big.Int{bi(4), p, q})})
+				emit(Op{"op": "modsqrt", "label": "root|none", "class": "rand-square4", "a": hx(t3), "factors": hxs([]*big.Int{bi(4), p, q})})
+				emit(Op{"op": "modsqrt", "label": "root|none", "class": "rand4", "a": hx(g.below(n4)), "factors": hxs([]*big.Int{bi(4), p, q})})
+				emit(Op{"op": "modsqrt", "label": "root|none", "class": "rand4-neg", "a": hx(new(big.Int).Neg(g.below(n4))), "factors": hxs([]*big.Int{bi(4), p, q})})
 			}
 		}
 		if i%3 == 0 {
